@@ -422,6 +422,26 @@ func runC02(r *Run) {
 			"custom constraints are looked up by exact name although the pattern — and the constraint name in it — is lower-cased at registration unless CaseSensitive is set: a constraint registered as \"isAdmin\" is never found, the parameter falls back to `no constraint` and every value is accepted")
 	})
 
+	r.rule("R3c", "the catch-all shortcuts are decided on the pattern as written: Route.star / Route.root do not depend on the pattern with its escape characters removed (E3)", func() {
+		reg := r.Fn("", "(*App).register")
+		n := 0
+		withinFunction(reg, func() {
+			for _, fr := range fieldRefs(reg) {
+				if !fr.Write || (fr.Name != "Route.star" && fr.Name != "Route.root") || fr.Val == nil {
+					continue
+				}
+				n++
+				unescaped := dependsOn(fr.Val, func(v ssa.Value) bool {
+					c, ok := v.(*ssa.Call)
+					return ok && strings.HasSuffix(calleeName(&c.Call), ".RemoveEscapeChar")
+				}) != nil
+				r.check(!unescaped, "register:"+fr.Name+":decided-on-escaped-pattern", r.pos(fr.Instr), fr.Name+" is decided before escape characters are removed",
+					fr.Name+" is decided on the pattern after its escape characters were removed: the pattern `/\\*` — a literal asterisk — becomes the catch-all route and its handler runs for every path")
+			}
+		})
+		r.atLeast("shortcut flags set at registration", n, 2)
+	})
+
 	// R4 ------------------------------------------------------------------------------
 	r.rule("R4", "required parameters are non-empty; last non-greedy parameter stops at '/'; non-greedy multi-byte search refuses a '/' before the delimiter (E1)", func() {
 		withoutHelpers(func() { // attribution rule: each construct belongs to the one function that contains it
